@@ -49,21 +49,34 @@ _MODEL_FUNCS: dict = {"names": None}
 
 def set_current_functions(names) -> None:
     _MODEL_FUNCS["names"] = set(names)
+    _MODEL_FUNCS["funcs"] = dict(names) if isinstance(names, dict) else None
 
 
 def _renamed_anchor(f: FuncInfo):
     """A pinned function of the same module that no longer exists and has exactly f's parameter
-    list (at least one parameter): f is that function under a new name, not a new helper."""
+    list (at least one parameter): f is that function under a new name, not a new helper.  When several new
+    functions have that parameter list, the one whose body resembles the pinned body (jtsa/alpha.py)."""
     try:
-        from .inventory import SIGNATURES
+        from .inventory import SIGNATURES, FUNCTIONS
     except ImportError:
         return None
+    try:
+        from .inventory import BAGS
+    except ImportError:
+        BAGS = {}
+    from .alpha import pick_renamed
     cur = _MODEL_FUNCS["names"]
+    funcs = _MODEL_FUNCS.get("funcs")
     if cur is None or not f.params or isinstance(f.parent, FuncInfo):
         return None
     mod = f.module.short + "."
     for q, ps in SIGNATURES.items():
         if q.startswith(mod) and q not in cur and tuple(ps) == tuple(f.params) and "<locals>" not in q:
+            if funcs is not None:
+                cands = [g for q2, g in funcs.items() if g.module.short == f.module.short and q2 not in FUNCTIONS and tuple(g.params) == tuple(ps)
+                         and "<locals>" not in q2]
+                if pick_renamed(cands, BAGS.get(q)) is not f:
+                    continue
             return q
     return None
 
@@ -524,8 +537,54 @@ def _expand_stmt(model, caller: FuncInfo, st, inventory) -> Optional[list]:
         if target is not None:
             inner.append(ast.copy_location(ast.Assign(targets=[_tgt(target)], value=ast.Constant(value=None), lineno=st.lineno), st))
         inner.append(ast.copy_location(ast.Break(), st))
+    flat = _strip_tail_breaks(inner)
+    if flat is not None:
+        return prologue + (flat or [ast.copy_location(ast.Pass(), st)])  # every path left the helper at a tail position: no loop needed
     loop = ast.copy_location(ast.While(test=ast.Constant(value=True), body=inner, orelse=[]), st)
     return prologue + [loop]
+
+
+def _has_loop_exit(stmts) -> bool:
+    """a break / continue that belongs to the enclosing loop (not to a loop nested in stmts)"""
+    for st in stmts:
+        if isinstance(st, (ast.Break, ast.Continue)):
+            return True
+        if isinstance(st, (ast.For, ast.While, ast.AsyncFor)):
+            if _has_loop_exit(st.orelse):
+                return True
+            continue
+        if isinstance(st, (ast.FunctionDef, ast.AsyncFunctionDef, ast.ClassDef)):
+            continue
+        for fld in ("body", "orelse", "finalbody"):
+            sub = getattr(st, fld, None)
+            if isinstance(sub, list) and sub and isinstance(sub[0], ast.stmt) and _has_loop_exit(sub):
+                return True
+        for hd in getattr(st, "handlers", []) or []:
+            if _has_loop_exit(hd.body):
+                return True
+        for cs in getattr(st, "cases", []) or []:
+            if _has_loop_exit(cs.body):
+                return True
+    return False
+
+
+def _strip_tail_breaks(stmts):
+    """The body of a `while True:` that every path leaves by a `break` in tail position (the last statement, or the last
+    statement of both sides of a trailing if/else), without those breaks; None if the loop is left in any other way."""
+    if not stmts:
+        return None
+    last = stmts[-1]
+    if _has_loop_exit(stmts[:-1]):
+        return None
+    if isinstance(last, ast.Break):
+        return list(stmts[:-1])
+    if isinstance(last, ast.If) and last.orelse:
+        a, b = _strip_tail_breaks(last.body), _strip_tail_breaks(last.orelse)
+        if a is None or b is None:
+            return None
+        new = ast.copy_location(ast.If(test=last.test, body=a or [ast.copy_location(ast.Pass(), last)], orelse=b), last)
+        return list(stmts[:-1]) + [new]
+    return None
 
 
 def _as_expression(body: list):
@@ -773,7 +832,36 @@ def drop_absorbed_helpers(model, inventory: set) -> list:
             elif isinstance(n, ast.alias):
                 used.add(n.name.split(".")[-1])
     dropped = []
+    # a new private class nobody mentions any more (its instances were dissolved into locals, its methods inlined) goes whole
+    try:
+        from .inventory import MODULE_NAMES as _MN
+    except ImportError:
+        _MN = {}
+    for mod in model.modules.values():
+        if mod.short.startswith("_typeguard"):
+            continue
+        for st in list(mod.tree.body):
+            if isinstance(st, ast.ClassDef) and st.name.startswith("_") and not st.name.startswith("__") and st.name not in _MN.get(mod.short, set()) \
+                    and not st.decorator_list and len(mod.tree.body) > 1:
+                inside = {id(x) for x in ast.walk(st)}
+                mentioned = False
+                for mod2 in model.modules.values():
+                    for n in ast.walk(mod2.tree):
+                        if id(n) in inside:
+                            continue
+                        if (isinstance(n, ast.Name) and n.id == st.name) or (isinstance(n, ast.Attribute) and n.attr == st.name) \
+                                or (isinstance(n, ast.Constant) and n.value == st.name) or (isinstance(n, ast.alias) and n.name.split(".")[-1] == st.name):
+                            mentioned = True
+                            break
+                    if mentioned:
+                        break
+                if not mentioned:
+                    mod.tree.body.remove(st)
+                    dropped.append(f"{mod.short}.{st.name}")
+    gone = tuple(d + "." for d in dropped)
     for h in new_helpers:
+        if gone and h.qualname.startswith(gone):
+            continue
         if h.name in used or h.name.startswith("__") or not h.name.startswith("_"):
             continue
         owner_body = None
@@ -3218,3 +3306,385 @@ def collapse_return_temps(model, changed: set) -> bool:
             ast.fix_missing_locations(f.node)
             any_change = True
     return any_change
+
+
+def collapse_test_temps(model, changed: set) -> bool:
+    """Two spellings of one test, in functions whose source differs from the pinned tree:
+      `t = <expr>` immediately followed by `if t:` / `if not t:` / `if t and ...:` (t bound once, read once) -> the expression in the test;
+      `if a: if b: X` (neither `if` has an else, the inner one is the only statement) -> `if a and b: X`."""
+    any_change = False
+    for q in sorted(changed):
+        f = model.functions.get(q)
+        if f is None or f.module.short.startswith("_typeguard") or not isinstance(f.node, (ast.FunctionDef, ast.AsyncFunctionDef)):
+            continue
+        loads, stores = {}, {}
+        for x in ast.walk(f.node):
+            if isinstance(x, ast.Name):
+                (loads if isinstance(x.ctx, ast.Load) else stores).setdefault(x.id, []).append(x)
+
+        def head_slot(test):
+            """(holder, field/index) of the expression evaluated first by the test"""
+            if isinstance(test, ast.Name):
+                return ("self", None)
+            if isinstance(test, ast.UnaryOp) and isinstance(test.op, ast.Not) and isinstance(test.operand, ast.Name):
+                return (test, "operand")
+            if isinstance(test, ast.BoolOp):
+                v = test.values[0]
+                if isinstance(v, ast.Name):
+                    return (test, 0)
+                if isinstance(v, ast.UnaryOp) and isinstance(v.op, ast.Not) and isinstance(v.operand, ast.Name):
+                    return (v, "operand")
+            return None
+
+        def rec(stmts):
+            ch = False
+            i = 0
+            while i + 1 < len(stmts):
+                a, b = stmts[i], stmts[i + 1]
+                if isinstance(a, ast.Assign) and len(a.targets) == 1 and isinstance(a.targets[0], ast.Name) and isinstance(b, (ast.If, ast.While)) and isinstance(b, ast.If):
+                    nm = a.targets[0].id
+                    slot = head_slot(b.test)
+                    if slot and nm not in f.params and len(loads.get(nm, [])) == 1 and len(stores.get(nm, [])) == 1:
+                        holder, key = slot
+                        cur = b.test if holder == "self" else (holder.values[key] if isinstance(key, int) else getattr(holder, key))
+                        if isinstance(cur, ast.Name) and cur.id == nm:
+                            if holder == "self":
+                                b.test = a.value
+                            elif isinstance(key, int):
+                                holder.values[key] = a.value
+                            else:
+                                setattr(holder, key, a.value)
+                            del stmts[i]
+                            ch = True
+                            continue
+                i += 1
+            for st in stmts:
+                if isinstance(st, (ast.FunctionDef, ast.AsyncFunctionDef, ast.ClassDef)):
+                    continue
+                for fld in ("body", "orelse", "finalbody"):
+                    sub = getattr(st, fld, None)
+                    if isinstance(sub, list) and sub and isinstance(sub[0], ast.stmt):
+                        ch |= rec(sub)
+                for hd in getattr(st, "handlers", []) or []:
+                    ch |= rec(hd.body)
+            # nested ifs without else: one conjunction (after the bodies were visited: innermost first)
+            for st in stmts:
+                while isinstance(st, ast.If) and not st.orelse and len(st.body) == 1 and isinstance(st.body[0], ast.If) and not st.body[0].orelse:
+                    inner = st.body[0]
+                    vals = (st.test.values if isinstance(st.test, ast.BoolOp) and isinstance(st.test.op, ast.And) else [st.test]) + \
+                           (inner.test.values if isinstance(inner.test, ast.BoolOp) and isinstance(inner.test.op, ast.And) else [inner.test])
+                    st.test = ast.BoolOp(op=ast.And(), values=list(vals))
+                    st.body = inner.body
+                    ch = True
+            return ch
+
+        if rec(f.node.body):
+            ast.fix_missing_locations(f.node)
+            any_change = True
+    return any_change
+
+
+# --------------------------------------------------------------------------- local builder objects
+def scalarise_local_objects(model, module_names: dict, only: set) -> list:
+    """`r = C(a)` ... `r.x = v` ... `f"{r.what} {r.x}"` with C a *new* plain class whose `__init__` only stores expressions of its
+    parameters into `self.<attr>`, where the local `r` is bound once and only ever appears as `r.<data attribute>` (its methods have
+    been inlined, it is never handed on, compared, returned or captured): the object is replaced by one local per attribute
+    (`r__what = a`, `r__x = v`).  Scalar replacement of a non-escaping aggregate: no aliasing is possible, the class has no
+    `__setattr__` / `__getattr__` / properties / `__slots__`, so every `r.x` means the value last stored there.
+    Only in the functions named in `only` (those that received inlined code or differ from the pinned tree)."""
+    done = []
+    for q in sorted(only):
+        f = model.functions.get(q)
+        if f is None or f.module.short.startswith("_typeguard") or not isinstance(f.node, (ast.FunctionDef, ast.AsyncFunctionDef)):
+            continue
+        fn = f.node
+        idents = {n.id for n in ast.walk(fn) if isinstance(n, ast.Name)} | {a.arg for a in ast.walk(fn) if isinstance(a, ast.arg)}
+        # candidate locals: `r = C(..)` statements
+        cands = {}
+        for st in _walk_own(fn):
+            if isinstance(st, ast.Assign) and len(st.targets) == 1 and isinstance(st.targets[0], ast.Name) and isinstance(st.value, ast.Call) \
+                    and isinstance(st.value.func, ast.Name):
+                cands.setdefault(st.targets[0].id, []).append(st)
+        for r_, sts in sorted(cands.items()):
+            if r_ in f.params:
+                continue
+            b = model.resolve_name(f, sts[0].value.func.id)
+            if b.kind != "class":
+                continue
+            K = b.target
+            if K.module.short.startswith("_typeguard") or K.name in module_names.get(K.module.short, set()):
+                continue
+            if any(model.resolve_name(f, s_.value.func.id).kind != "class" or model.resolve_name(f, s_.value.func.id).target is not K for s_ in sts):
+                continue
+            kn = K.node
+            if kn.keywords or kn.decorator_list or any(ast.unparse(b_) != "object" for b_ in kn.bases):
+                continue
+            cbody = _strip_doc(list(kn.body))
+            methods = {x.name: x for x in cbody if isinstance(x, ast.FunctionDef)}
+            class_attrs = {}
+            ok = True
+            for x in cbody:
+                if isinstance(x, ast.FunctionDef):
+                    if x.decorator_list or x.name in ("__setattr__", "__getattr__", "__getattribute__", "__delattr__", "__del__", "__set_name__", "__init_subclass__", "__new__"):
+                        ok = False
+                elif isinstance(x, ast.Assign) and len(x.targets) == 1 and isinstance(x.targets[0], ast.Name) and isinstance(x.value, ast.Constant) and x.targets[0].id != "__slots__":
+                    class_attrs[x.targets[0].id] = x.value
+                elif isinstance(x, ast.AnnAssign) and isinstance(x.target, ast.Name) and (x.value is None or isinstance(x.value, ast.Constant)):
+                    if x.value is not None:
+                        class_attrs[x.target.id] = x.value
+                elif isinstance(x, ast.Pass):
+                    pass
+                else:
+                    ok = False
+            if not ok:
+                continue
+            # subclasses could override: the class must not be subclassed in the package
+            if any(K.name in [ast.unparse(b_).split(".")[-1] for b_ in c2.node.bases] for c2 in model.classes.values() if c2 is not K):
+                continue
+            ini = methods.get("__init__")
+            init_stores = []  # (attr, expr)
+            iparams, idefaults = [], {}
+            if ini is not None:
+                a = ini.args
+                if a.vararg or a.kwarg or a.posonlyargs and False:
+                    continue
+                allp = [x.arg for x in a.posonlyargs + a.args]
+                if not allp:
+                    continue
+                selfn = allp[0]
+                iparams = allp[1:] + [x.arg for x in a.kwonlyargs]
+                pos_defaults = a.defaults
+                for p_, d_ in zip(reversed(allp), reversed(pos_defaults)):
+                    idefaults[p_] = d_
+                for p_, d_ in zip(a.kwonlyargs, a.kw_defaults):
+                    if d_ is not None:
+                        idefaults[p_.arg] = d_
+                if not all(isinstance(d_, ast.Constant) for d_ in idefaults.values()):
+                    continue
+                for x in _strip_doc(list(ini.body)):
+                    if isinstance(x, ast.Assign) and len(x.targets) == 1 and isinstance(x.targets[0], ast.Attribute) and isinstance(x.targets[0].value, ast.Name) \
+                            and x.targets[0].value.id == selfn and not any(isinstance(y, ast.Name) and y.id == selfn for y in ast.walk(x.value)) \
+                            and not any(isinstance(y, (ast.Call, ast.Lambda, ast.Yield, ast.Await, ast.NamedExpr, ast.ListComp, ast.DictComp, ast.SetComp, ast.GeneratorExp)) for y in ast.walk(x.value)) \
+                            and all(y.id in iparams for y in ast.walk(x.value) if isinstance(y, ast.Name)):
+                        init_stores.append((x.targets[0].attr, x.value))
+                    elif isinstance(x, ast.Pass):
+                        pass
+                    else:
+                        ok = False
+                if not ok:
+                    continue
+            # every occurrence of r in the function (nested scopes included)
+            parents = {}
+            for p in ast.walk(fn):
+                for c in ast.iter_child_nodes(p):
+                    parents[id(c)] = p
+            occ = [n for n in ast.walk(fn) if isinstance(n, ast.Name) and n.id == r_]
+            def_targets = {id(s_.targets[0]) for s_ in sts}
+            own = {id(n) for st in _walk_own(fn) for n in ast.walk(st)} if False else None
+            attrs_used = set()
+            for n in occ:
+                if id(n) in def_targets:
+                    continue
+                p = parents.get(id(n))
+                if not (isinstance(p, ast.Attribute) and p.value is n and not isinstance(p.ctx, ast.Del)):
+                    ok = False
+                    break
+                if p.attr in methods or p.attr.startswith("__"):
+                    ok = False
+                    break
+                attrs_used.add(p.attr)
+            if not ok:
+                continue
+            # r must belong to fn's own scope only (no nested function / lambda / comprehension mentions it)
+            nested_mention = False
+            for x in ast.walk(fn):
+                if x is not fn and isinstance(x, (ast.FunctionDef, ast.AsyncFunctionDef, ast.Lambda, ast.ListComp, ast.SetComp, ast.DictComp, ast.GeneratorExp, ast.ClassDef)):
+                    if any(isinstance(y, ast.Name) and y.id == r_ for y in ast.walk(x)):
+                        nested_mention = True
+            if nested_mention:
+                continue
+            known_attrs = set(class_attrs) | {a_ for a_, _ in init_stores}
+            stored_attrs = {parents[id(n)].attr for n in occ if id(n) not in def_targets and isinstance(parents[id(n)].ctx, ast.Store)}
+            if not attrs_used <= (known_attrs | stored_attrs):
+                continue
+            new_names = {a_: f"{r_}__{a_}" for a_ in known_attrs | attrs_used}
+            if any(v in idents for v in new_names.values()):
+                continue
+            # bind the constructor arguments
+            replaced = True
+            for s_ in sts:
+                call = s_.value
+                if any(isinstance(a_, ast.Starred) for a_ in call.args) or any(k.arg is None for k in call.keywords):
+                    replaced = False
+                    break
+                bound = {}
+                posn = [x.arg for x in (ini.args.posonlyargs + ini.args.args)][1:] if ini is not None else []
+                if len(call.args) > len(posn):
+                    replaced = False
+                    break
+                for p_, a_ in zip(posn, call.args):
+                    bound[p_] = a_
+                for k in call.keywords:
+                    if k.arg in bound or k.arg not in iparams:
+                        replaced = False
+                        break
+                    bound[k.arg] = k.value
+                if not replaced:
+                    break
+                for p_ in iparams:
+                    if p_ not in bound:
+                        if p_ in idefaults:
+                            bound[p_] = idefaults[p_]
+                        else:
+                            replaced = False
+                if not replaced:
+                    break
+                s_._scalar_bound = bound
+            if not replaced:
+                continue
+            # rewrite
+            def build(s_):
+                out = []
+                bound = s_._scalar_bound
+                subst = {}
+                for p_ in iparams:
+                    a_ = bound[p_]
+                    nuse = sum(1 for _, e in init_stores for y in ast.walk(e) if isinstance(y, ast.Name) and y.id == p_)
+                    if isinstance(a_, (ast.Constant, ast.Name)) or nuse == 1 and [p2 for p2 in iparams if not isinstance(bound[p2], (ast.Constant, ast.Name))] == [p_]:
+                        subst[p_] = a_
+                    else:
+                        tmpn = f"{r_}__arg_{p_}"
+                        out.append(ast.copy_location(ast.Assign(targets=[ast.Name(id=tmpn, ctx=ast.Store())], value=a_, lineno=s_.lineno), s_))
+                        subst[p_] = ast.Name(id=tmpn, ctx=ast.Load())
+                for a_, v in class_attrs.items():
+                    if a_ in new_names:
+                        out.append(ast.copy_location(ast.Assign(targets=[ast.Name(id=new_names[a_], ctx=ast.Store())], value=copy.deepcopy(v), lineno=s_.lineno), s_))
+                for a_, e in init_stores:
+                    e2 = _SubstLoads(subst).visit(copy.deepcopy(e))
+                    out.append(ast.copy_location(ast.Assign(targets=[ast.Name(id=new_names[a_], ctx=ast.Store())], value=e2, lineno=s_.lineno), s_))
+                return out or [ast.copy_location(ast.Pass(), s_)]
+
+            def rec(stmts):
+                i = 0
+                while i < len(stmts):
+                    st = stmts[i]
+                    if any(st is s_ for s_ in sts):
+                        new = build(st)
+                        stmts[i:i + 1] = new
+                        i += len(new)
+                        continue
+                    if not isinstance(st, (ast.FunctionDef, ast.AsyncFunctionDef, ast.ClassDef)):
+                        for fld in ("body", "orelse", "finalbody"):
+                            sub = getattr(st, fld, None)
+                            if isinstance(sub, list) and sub and isinstance(sub[0], ast.stmt):
+                                rec(sub)
+                        for hd in getattr(st, "handlers", []) or []:
+                            rec(hd.body)
+                        for cs in getattr(st, "cases", []) or []:
+                            rec(cs.body)
+                    i += 1
+
+            rec(fn.body)
+
+            class _R(ast.NodeTransformer):
+                def visit_Attribute(self, n):
+                    self.generic_visit(n)
+                    if isinstance(n.value, ast.Name) and n.value.id == r_ and n.attr in new_names:
+                        return ast.copy_location(ast.Name(id=new_names[n.attr], ctx=n.ctx), n)
+                    return n
+
+            _R().visit(fn)
+            ast.fix_missing_locations(fn)
+            done.append((q, r_, K.name))
+    return done
+
+
+# --------------------------------------------------------------------------- module-level name tables
+def desugar_module_name_tables(model, module_names: dict) -> list:
+    """`_table = (("Bool", bools), ("Int", ints), ..)` + `for name, dts in _table: globals()[name] = make(dts, name)` at module level
+    -> `Bool = make(bools, "Bool")`, `Int = make(ints, "Int")`, .. in table order.  `globals()[k] = v` in a module body *is* the
+    assignment `k = v`; the table must be a new module-level literal of rows whose key element is a string literal naming an
+    identifier, and a non-literal row element may be used at most once per iteration (it is evaluated once, as before)."""
+    done = []
+    for mod in model.modules.values():
+        if mod.short.startswith("_typeguard"):
+            continue
+        known = module_names.get(mod.short, set())
+        body = mod.tree.body
+        i = 0
+        while i < len(body):
+            st = body[i]
+            i += 1
+            if not (isinstance(st, ast.For) and not st.orelse):
+                continue
+            tbl = st.iter
+            tname = None
+            if isinstance(tbl, ast.Name):
+                tname = tbl.id
+                if tname in known:
+                    continue
+                defs = [x for x in body if isinstance(x, ast.Assign) and any(isinstance(t, ast.Name) and t.id == tname for t in x.targets)]
+                if len(defs) != 1 or body.index(defs[0]) > body.index(st):
+                    continue
+                between = body[body.index(defs[0]) + 1:body.index(st)]
+                if any(isinstance(y, ast.Name) and y.id == tname for x in between for y in ast.walk(x)):
+                    continue  # the table may have been changed before the loop ran
+                tbl = defs[0].value
+            if not isinstance(tbl, (ast.Tuple, ast.List)) or not tbl.elts or len(tbl.elts) > 128:
+                continue
+            tg = st.target
+            tnames = [tg.id] if isinstance(tg, ast.Name) else [e.id for e in tg.elts] if isinstance(tg, (ast.Tuple, ast.List)) and all(isinstance(e, ast.Name) for e in tg.elts) else None
+            if not tnames:
+                continue
+            rows = []
+            ok = True
+            for r_ in tbl.elts:
+                if isinstance(tg, ast.Name):
+                    rows.append([r_])
+                elif isinstance(r_, (ast.Tuple, ast.List)) and len(r_.elts) == len(tnames) and not any(isinstance(e, ast.Starred) for e in r_.elts):
+                    rows.append(list(r_.elts))
+                else:
+                    ok = False
+            if not ok:
+                continue
+            # body: only `globals()[<tname>] = <expr>`
+            stores = []
+            for b in st.body:
+                if isinstance(b, ast.Assign) and len(b.targets) == 1 and isinstance(b.targets[0], ast.Subscript) and isinstance(b.targets[0].value, ast.Call) \
+                        and isinstance(b.targets[0].value.func, ast.Name) and b.targets[0].value.func.id == "globals" and not b.targets[0].value.args \
+                        and isinstance(b.targets[0].slice, ast.Name) and b.targets[0].slice.id in tnames:
+                    stores.append((b.targets[0].slice.id, b.value, b))
+                else:
+                    ok = False
+            if not ok or not stores:
+                continue
+            new = []
+            for row in rows:
+                env = dict(zip(tnames, row))
+                for key, val, b in stores:
+                    k = env[key]
+                    if not (isinstance(k, ast.Constant) and isinstance(k.value, str) and k.value.isidentifier()):
+                        ok = False
+                        break
+                    for tn in tnames:
+                        if not isinstance(env[tn], (ast.Constant, ast.Name)):
+                            uses = sum(1 for _, v2, _ in stores for y in ast.walk(v2) if isinstance(y, ast.Name) and y.id == tn)
+                            if uses > 1:
+                                ok = False
+                    if not ok:
+                        break
+                    v = _SubstLoads(env).visit(copy.deepcopy(val))
+                    new.append(ast.copy_location(ast.Assign(targets=[ast.Name(id=k.value, ctx=ast.Store())], value=v, lineno=st.lineno), st))
+                if not ok:
+                    break
+            if not ok:
+                continue
+            j = body.index(st)
+            body[j:j + 1] = new
+            i = j + len(new)
+            # `del <loop targets>` right after the loop
+            if i < len(body) and isinstance(body[i], ast.Delete) and all(isinstance(t, ast.Name) and t.id in tnames for t in body[i].targets):
+                del body[i]
+            ast.fix_missing_locations(mod.tree)
+            done.append((mod.short, tname or "<literal>", len(rows)))
+    return done
